@@ -760,6 +760,8 @@ addmember(struct structbuilder *b, struct qualtype mt, char *name, int align, un
 
 	if (t->kind == TYPESTRUCT && t->flexible)
 		error(&tok.loc, "struct has member '%s' after flexible array member", name);
+	if (name && typemember(t, name, &(unsigned long long){0}))
+		error(&tok.loc, "duplicate member '%s'", name);
 	if (mt.type->incomplete) {
 		if (mt.type->kind != TYPEARRAY)
 			error(&tok.loc, "struct member '%s' has incomplete type", name);
